@@ -250,7 +250,11 @@ class Scheduler(object):
         if not w.cancel_req and self.coin("cancel"):
             self.do(["request", self.K.choice(["canceling", "canceling", "canceled"], "fault", "ckind", self.pos)])
         if self.coin("bad_request"):
-            self.do(["request", self.K.choice(ALL_STATUS_REQUESTS, "fault", "breq", self.pos)])
+            # `succeeded` is the one status the table lets a caller force on a running workflow;
+            # forcing it is not a pause/resume/cancel request and no property speaks about it
+            req = self.K.choice(ALL_STATUS_REQUESTS, "fault", "breq", self.pos)
+            if not (req == "succeeded" and w.status in ("running",)):
+                self.do(["request", req])
 
     def after_handler(self):
         """Poll policy: the engine asks for next tasks after an event -- or skips / repeats it."""
